@@ -391,6 +391,61 @@ def c15_lock_coverage(prog):
     return out
 
 
+def c13_tables_assigned_once(prog):
+    """C13.struct.tables-assigned-once[attr]: each table attribute of Node is assigned exactly once in the package - in
+    Node.__init__, to a new empty dict literal; hence two tables are never the same object (used as a structural fact by
+    the contracts) and nothing replaces a table behind the contracts' back."""
+    import ast
+    tables = ("connections", "_half_ready_connections", "peer_sockets", "socket_peers", "_peer_waiting_answer",
+              "_app_waiting_answer", "_origin_waiting_answer", "_sent_answers", "peers")
+    sites = {a: [] for a in tables}
+    for q, fi in prog.functions.items():
+        if ".node.node.Node." not in q:
+            continue
+        for n in ast.walk(fi.node):
+            tgts, val = [], None
+            if isinstance(n, ast.Assign):
+                tgts, val = n.targets, n.value
+            elif isinstance(n, (ast.AnnAssign, ast.AugAssign)):
+                tgts, val = [n.target], n.value
+            for t in tgts:
+                if isinstance(t, ast.Attribute) and isinstance(t.value, ast.Name) and t.value.id == "self" and t.attr in sites:
+                    sites[t.attr].append((q, n.lineno, ast.unparse(val) if val is not None else None))
+    out = []
+    for a, ss in sites.items():
+        ok = len(ss) == 1 and ss[0][0].endswith("Node.__init__") and ss[0][2] in ("{}", "dict()")
+        out.append(GroundOb(f"C13.struct.tables-assigned-once[{a}]", ok,
+                            "; ".join(f"{q}:{ln} = {v}" for q, ln, v in ss) or "never assigned", backend="ast"))
+    return out
+
+
+def c15_queue_kinds(prog):
+    """C15.struct.fifo[attr]: the attributes that the contracts model as FIFO hand-over queues (ghost logs g_put / g_taken,
+    T-queue) are constructed as queue.Queue - the only assignment to each of them in the package (AST obligation: it is
+    what makes the assumed FIFO model the model of the object that is really there)."""
+    import ast
+    want = {"_write_msg_queue": "PeerConnection", "_read_buffer_queue": "PeerConnection",
+            "_recv_msg_queue": "ThreadingApplication", "_resp_msg_queue": "ThreadingApplication"}
+    found = {a: [] for a in want}
+    for q, fi in prog.functions.items():
+        if ".node." not in "." + q:
+            continue
+        for n in ast.walk(fi.node):
+            tgt = val = None
+            if isinstance(n, ast.Assign) and len(n.targets) == 1:
+                tgt, val = n.targets[0], n.value
+            elif isinstance(n, ast.AnnAssign):
+                tgt, val = n.target, n.value
+            if isinstance(tgt, ast.Attribute) and tgt.attr in want and val is not None:
+                found[tgt.attr].append((q, n.lineno, ast.unparse(val)))
+    out = []
+    for a, sites in found.items():
+        ok = len(sites) == 1 and sites[0][2] in ("queue.Queue()", "Queue()") and sites[0][0].endswith(f"{want[a]}.__init__")
+        out.append(GroundOb(f"C15.struct.fifo[{a}]", ok, "; ".join(f"{q}:{ln} = {v}" for q, ln, v in sites) or "never assigned",
+                            backend="ast", witness={"sites": sites}))
+    return out
+
+
 _t6_failed_ctor = set()
 _t6_cache = {}
 
